@@ -101,6 +101,36 @@ func runMix(r *hx.Run, c hx.Case) {
 	if cl, d := checkLines(out, 76, false); cl != "" {
 		r.Fail(c.ID, "mix-"+cl, d)
 	}
+	// the caller changes the transfer encoding of every file after the first render (File.Enc is a public field) and
+	// renders again: whatever encoding a part ANNOUNCES is the encoding its body has, so the line discipline holds
+	files := append(append([]*mail.File{}, m.GetEmbeds()...), m.GetAttachments()...)
+	if len(files) == 0 {
+		return
+	}
+	for i, f := range files {
+		f.Enc = []mail.Encoding{mail.NoEncoding, mail.EncodingQP, mail.EncodingB64}[(i+len(c.ID))%3]
+	}
+	bm, br, ba := bytex.Boundaries(out)
+	desc2 := bytex.Describe(m, &spec, [3]string{bm, br, ba}, nil)
+	sink2 := &bytex.Sink{K: -1}
+	_, werr2, pan2 := bytex.SafeWriteTo(m, sink2)
+	if pan2 != nil || werr2 != nil {
+		r.Fail(c.ID, "render-failed", fmt.Sprint("second render: ", pan2, werr2))
+		return
+	}
+	out2 := sink2.Accepted
+	var rb2 [][]byte
+	b2m, b2r, b2a := bytex.Boundaries(out2)
+	for _, b := range []string{b2m, b2r, b2a} {
+		if b != "" {
+			rb2 = append(rb2, []byte(b))
+		}
+	}
+	d2 := strings.TrimSuffix(desc2, ";N-") + ";N" + hx.HexList(rb2)
+	r.Add(hx.Case{ID: c.ID + "-reenc", Kind: "render", Args: append([]string{d2, "inf", "mix"}, c.Args...)}, fmt.Sprintf("ok %d %s", len(out2), hx.Hex(out2)), true)
+	if cl, d := checkLines(out2, 76, false); cl != "" {
+		r.Fail(c.ID, "mix-reenc-"+cl, d)
+	}
 }
 
 // splitHeaderBody splits at the first empty line.
@@ -237,7 +267,7 @@ func runCase(r *hx.Run, c hx.Case) {
 	case "render":
 		// replay of the model-side line of a mix case: <desc> inf mix <msgenc> <parts> <embeds> <attach>
 		if len(c.Args) >= 7 && c.Args[2] == "mix" {
-			runMix(r, hx.Case{ID: c.ID, Kind: "mix", Args: c.Args[3:7]})
+			runMix(r, hx.Case{ID: strings.TrimSuffix(c.ID, "-reenc"), Kind: "mix", Args: c.Args[3:7]})
 		} else {
 			r.Fail(c.ID, "bad-replay", "unknown render case")
 		}
